@@ -559,7 +559,10 @@ def min(array, axis=None, keepdims=False, initial=None, mask_identity=True):
             return out
 
         tmp = ak._util.completely_flatten(layout)
-        return reduce([ak.nplike.of(x).min(x) for x in tmp if len(x) > 0])
+        candidates = [ak.nplike.of(x).min(x) for x in tmp if len(x) > 0]
+        if initial is not None:
+            candidates.append(initial)
+        return reduce(candidates)
     else:
         behavior = ak._util.behaviorof(array)
         return ak._util.wrap(
@@ -619,7 +622,10 @@ def max(array, axis=None, keepdims=False, initial=None, mask_identity=True):
             return out
 
         tmp = ak._util.completely_flatten(layout)
-        return reduce([ak.nplike.of(x).max(x) for x in tmp if len(x) > 0])
+        candidates = [ak.nplike.of(x).max(x) for x in tmp if len(x) > 0]
+        if initial is not None:
+            candidates.append(initial)
+        return reduce(candidates)
     else:
         behavior = ak._util.behaviorof(array)
         return ak._util.wrap(
